@@ -226,31 +226,41 @@ inductive FAC
   | error
 deriving DecidableEq, Repr, Inhabited
 
-/-- `cacheTransport.fetchAndCache` for a GET; `initial` = the ETag the caller passed in the request header
-(fetchRepositoryIndex after the HEAD of indexCache.get), else `head` is asked.  The status of the HEAD answer
-is not looked at here. -/
+/-- the first half of `cacheTransport.fetchAndCache` for a GET: which ETag addresses the entry.
+`initial` = the ETag the caller passed in the request header (fetchRepositoryIndex after the HEAD of
+indexCache.get), else `head` is asked; the status of the HEAD answer is not looked at here.
+`none` = an error, `some none` = no ETag. -/
+def facEtag (hasMemo : Bool) (s : Srv) (c : Cache) (initial : Option Etag) (script : List XConn) :
+    Option (Option Etag) × Cache × List XConn × List Ev :=
+  match initial with
+  | some e => (some (some e), c, script, [])
+  | none =>
+    match cacheHead hasMemo s c script with
+    | (none, c1, rest, evs) => (none, c1, rest, evs)
+    | (some m, c1, rest, evs) => (some m.2, c1, rest, evs)
+
+/-- the second half: `t.get` (the entry if it exists, else `retrieveAndSaveFile`) and `os.Open` -/
+def facGet (cl : Callers) (s : Srv) (c : Cache) (e : Etag) (script : List XConn) (sz : Nat → Nat) :
+    FAC × Cache × List XConn × List Ev :=
+  match c.entry e with
+  | some f => (.served f.content, c, script, [])
+  | none =>
+    match retrieve cl s c script sz with
+    | (none, c2, rest2, evs2) => (.error, c2, rest2, evs2)
+    | (some fin, c2, rest2, evs2) =>
+      match c2.entry fin with
+      | some f => (.served f.content, c2, rest2, evs2)
+      | none => (.error, c2, rest2, evs2)
+
+/-- `cacheTransport.fetchAndCache` for a GET -/
 def fetchAndCache (cl : Callers) (hasMemo : Bool) (s : Srv) (c : Cache) (initial : Option Etag)
     (script : List XConn) (sz : Nat → Nat) : FAC × Cache × List XConn × List Ev :=
-  let h : Option (Option Etag) × Cache × List XConn × List Ev :=
-    match initial with
-    | some e => (some (some e), c, script, [])
-    | none =>
-      match cacheHead hasMemo s c script with
-      | (none, c1, rest, evs) => (none, c1, rest, evs)
-      | (some m, c1, rest, evs) => (some m.2, c1, rest, evs)
-  match h with
+  match facEtag hasMemo s c initial script with
   | (none, c1, rest, evs) => (.error, c1, rest, evs)
   | (some none, c1, rest, evs) => (.passthrough, c1, rest, evs)
   | (some (some e), c1, rest, evs) =>
-    match c1.entry e with
-    | some f => (.served f.content, c1, rest, evs)
-    | none =>
-      match retrieve cl s c1 rest sz with
-      | (none, c2, rest2, evs2) => (.error, c2, rest2, evs ++ evs2)
-      | (some fin, c2, rest2, evs2) =>
-        match c2.entry fin with
-        | some f => (.served f.content, c2, rest2, evs ++ evs2)
-        | none => (.error, c2, rest2, evs ++ evs2)
+    let g := facGet cl s c1 e rest sz
+    (g.1, g.2.1, g.2.2.1, evs ++ g.2.2.2)
 
 /-- `cacheTransport.fetchOffline`: the newest advertised file of the entry directory (temp files are
 ignored, fix F19e) -/
